@@ -288,6 +288,7 @@ def _serve(directory):
             self.wfile.write(body)
 
     srv = http.server.ThreadingHTTPServer(("127.0.0.1", 0), H)
+    srv.handle_error = lambda *a: None   # clients drop streamed requests
     t = threading.Thread(target=srv.serve_forever, daemon=True)
     t.start()
     return srv
